@@ -129,6 +129,9 @@ class ExcEngine(Engine):
     for name in USER_ARGS:
       for depth, via_ref in ((1, False), (3, True)):
         cases.append({'cls': name, 'user': True, 'depth': depth, 'via_ref': via_ref})
+    for name in ('FileNotFoundError', 'KeyError', 'NeedsArgs'):
+      for depth in (1, 2):
+        cases.append({'cls': name, 'user': name == 'NeedsArgs', 'depth': depth, 'via_ref': False, 'brace_repr': True})
     return cases
 
   def gen(self, rng, tier):
@@ -153,9 +156,17 @@ class ExcEngine(Engine):
     except AttributeError:
       pass
 
-    @gin.configurable
-    def raiser():
-      raise original
+    if case.get('brace_repr'):
+      import functools
+
+      def _raise(opts):
+        raise original
+      # a callable whose repr contains braces (a partial carrying a dict argument)
+      raiser = gin.external_configurable(functools.partial(_raise, {'sep': ',', 'n': 1}), 'raiser')
+    else:
+      @gin.configurable
+      def raiser():
+        raise original
 
     @gin.configurable
     def level2(a=None):
@@ -223,7 +234,7 @@ class ExcEngine(Engine):
         while tb is not None:
           frames.append(tb.tb_frame.f_code.co_name)
           tb = tb.tb_next
-        if 'raiser' not in frames:
+        if 'raiser' not in frames and '_raise' not in frames:
           fails.append(('traceback-lost', repr(frames)))
         if str(original) not in str(caught):
           fails.append(('message-not-extended', '%r vs %r' % (str(original), str(caught))))
